@@ -179,6 +179,44 @@ func mnemonic(r *rand.Rand, tier string, tr *trace.Buf, wordlistOut string) {
 			emitDec(size, emitEnc(size, b, "random"), "valid")
 		}
 	}
+	// (1b) phrases of extreme length: every word the longest / the shortest of the list, and mixed
+	{
+		longest, shortest := 0, 0
+		for i, w := range qrl.WordList {
+			if len(w) > len(qrl.WordList[longest]) {
+				longest = i
+			}
+			if len(w) < len(qrl.WordList[shortest]) {
+				shortest = i
+			}
+		}
+		var longs []int
+		for i, w := range qrl.WordList {
+			if len(w) >= len(qrl.WordList[longest])-1 {
+				longs = append(longs, i)
+			}
+		}
+		for _, size := range []int{48, 51} {
+			nw := size * 2 / 3
+			for variant := 0; variant < 4; variant++ {
+				ws := make([]int, nw)
+				for p := range ws {
+					switch variant {
+					case 0:
+						ws[p] = longest
+					case 1:
+						ws[p] = shortest
+					case 2:
+						ws[p] = longs[r.Intn(len(longs))]
+					case 3:
+						ws[p] = []int{longest, shortest}[p%2]
+					}
+				}
+				b := wordsToBytes(ws)
+				emitDec(size, emitEnc(size, b, "extreme-word-lengths"), "valid")
+			}
+		}
+	}
 	// (2) malformed phrases
 	for _, size := range []int{48, 51} {
 		nw := size * 2 / 3
@@ -207,6 +245,16 @@ func mnemonic(r *rand.Rand, tier string, tr *trace.Buf, wordlistOut string) {
 					}
 				}
 				emitDec(size, mut(p, strings.ToUpper(w)), "upper-word")
+				// every single bit of every character of the word (case bit, high bits, neighbours in ASCII)
+				for ci := 0; ci < len(w); ci++ {
+					for bit := uint(0); bit < 8; bit++ {
+						bs := []byte(w)
+						bs[ci] ^= 1 << bit
+						if !inList[string(bs)] && bs[ci] != ' ' {
+							emitDec(size, mut(p, string(bs)), "char-bitflip")
+						}
+					}
+				}
 				emitDec(size, mut(p, strings.ToUpper(w[:1])+w[1:]), "title-word")
 				emitDec(size, mut(p, w+"\t"), "tab-in-word")
 				emitDec(size, mut(p, w+"\n"), "newline-in-word")
@@ -508,6 +556,33 @@ func address(r *rand.Rand, tier string, tr *trace.Buf) {
 			m[bit/8] ^= 1 << uint(bit%8)
 			emitL(m, "bitflip")
 		}
+		// compensating changes of two checksum bytes (a checksum compared through a sum, xor or fold
+		// would accept some of them), swaps and rotations of the checksum bytes
+		for a := 35; a < 39; a++ {
+			for b := a + 1; b < 39; b++ {
+				for _, d := range []uint8{1, 2, 0x10, 0x80, 0xff} {
+					m := la
+					m[a] += d
+					m[b] -= d
+					emitL(m, "checksum-plus-minus")
+					m = la
+					m[a] ^= d
+					m[b] ^= d
+					emitL(m, "checksum-xor-xor")
+				}
+				m := la
+				m[a], m[b] = m[b], m[a]
+				emitL(m, "checksum-swap")
+			}
+		}
+		{
+			m := la
+			m[35], m[36], m[37], m[38] = la[36], la[37], la[38], la[35]
+			emitL(m, "checksum-rotated")
+			m = la
+			m[35], m[36], m[37], m[38] = la[38], la[37], la[36], la[35]
+			emitL(m, "checksum-reversed")
+		}
 	}
 	for q := 0; q < nrand; q++ {
 		var a [39]uint8
@@ -539,18 +614,20 @@ type rcEvent struct {
 	Mn     []int  `json:"mn,omitempty"`
 	Hex    []int  `json:"hex,omitempty"`
 	// digests of the original and of the re-created key
-	Pk0   string `json:"pk0"`
-	Pk1   string `json:"pk1"`
-	Addr0 string `json:"addr0"`
-	Addr1 string `json:"addr1"`
-	Sk0   string `json:"sk0"`
-	Sk1   string `json:"sk1"`
-	Sig0  string `json:"sig0"`
-	Sig1  string `json:"sig1"`
-	SigJ0 string `json:"sigj0"`
-	SigJ1 string `json:"sigj1"`
-	Seed0 string `json:"seed0"`
-	Seed1 string `json:"seed1"`
+	Pk0   string   `json:"pk0"`
+	Pk1   string   `json:"pk1"`
+	Addr0 string   `json:"addr0"`
+	Addr1 string   `json:"addr1"`
+	Sk0   string   `json:"sk0"`
+	Sk1   string   `json:"sk1"`
+	Sig0  string   `json:"sig0"`
+	Sig1  string   `json:"sig1"`
+	SigJ0 string   `json:"sigj0"`
+	SigJ1 string   `json:"sigj1"`
+	Seed0 string   `json:"seed0"`
+	Seed1 string   `json:"seed1"`
+	Sigs0 []string `json:"sigs0,omitempty"`
+	Sigs1 []string `json:"sigs1,omitempty"`
 	// descriptor-only path
 	DescH  int `json:"desch"`
 	DescHf int `json:"deschf"`
@@ -638,6 +715,51 @@ func recoverDrive(r *rand.Rand, tier string, tr *trace.Buf) {
 				}
 			}
 		}
+	}
+	// taller trees (synthetic leaves): original and re-created object live in the SAME process and sign
+	// alternately; the first signatures of both must be identical
+	{
+		xmss.VerifLeafHook = func(hf xmss.HashFunction, leaf []uint8, idx uint32) bool {
+			b := []byte{byte(idx), byte(idx >> 8), byte(idx >> 16), 0x3c, byte(hf)}
+			for i := range leaf {
+				leaf[i] = b[i%5] ^ byte(i*13)
+			}
+			return true
+		}
+		ths := []int{12}
+		if tier == "thorough" {
+			ths = []int{10, 12, 14, 16}
+		}
+		for _, h := range ths {
+			for _, route := range []string{"extseed", "mnemonic"} {
+				var seed [48]uint8
+				r.Read(seed[:])
+				hf := r.Intn(3)
+				x := xmss.NewXMSSFromSeed(seed, uint8(h), xmss.HashFunction(hf), common.SHA256_2X)
+				var y *xmss.XMSS
+				res := call(func() {
+					if route == "extseed" {
+						y = xmss.NewXMSSFromExtendedSeed(x.GetExtendedSeed())
+					} else {
+						y = xmss.NewXMSSFromExtendedSeed(misc.MnemonicToExtendedSeedBin(x.GetMnemonic()))
+					}
+				})
+				e := rcEvent{Ev: "recovertall", Scheme: "xmss", Route: route, H: h, Hf: hf, Res: res}
+				if res == "ok" {
+					p0, p1 := x.GetPK(), y.GetPK()
+					e.Pk0, e.Pk1 = dg(p0[:]), dg(p1[:])
+					for q := 0; q < 6; q++ { // alternately: original, then the re-created one
+						m := []byte("tall-" + string(rune('a'+q)))
+						g0, _ := x.Sign(m)
+						g1, _ := y.Sign(m)
+						e.Sigs0 = append(e.Sigs0, dg(g0))
+						e.Sigs1 = append(e.Sigs1, dg(g1))
+					}
+				}
+				tr.Emit(e)
+			}
+		}
+		xmss.VerifLeafHook = nil
 	}
 	// descriptor-only path for the heights no key can be built for here
 	for h := 0; h <= 30; h += 2 {
